@@ -58,6 +58,13 @@ type E struct {
 	Snc innerNC
 	D   deep
 	T   time.Time
+	Big [140]uint64 // larger than the 1024-byte zero block unsafeCmpZero compares against
+	BS  bigS
+}
+
+type bigS struct {
+	A    [130]uint64
+	Last int64
 }
 
 var nonEmptyBacking = "abcdef"
@@ -169,6 +176,20 @@ func fill(r *vh.Rng, e *E) {
 	}
 	if r.Chance(1, 3) {
 		e.D.I = inner{S: nonEmptyBacking[0:0]}
+	}
+	e.Big = [140]uint64{}
+	e.BS = bigS{}
+	switch r.Intn(4) {
+	case 0:
+	case 1:
+		e.Big[139] = 5 // zero prefix longer than 1024 bytes, non-zero tail
+		e.BS.Last = 7
+	case 2:
+		e.Big[128] = 1
+		e.BS.A[129] = 2
+	default:
+		e.Big[0] = 1
+		e.BS.A[0] = 1
 	}
 	switch r.Intn(4) {
 	case 0:
